@@ -9,7 +9,7 @@ TreeOf(nodes) == [p \in {nodes[j].path : j \in 1..Len(nodes)} |->
                     LET j == CHOOSE j \in 1..Len(nodes) : nodes[j].path = p IN [req |-> nodes[j].req, ch |-> nodes[j].ch]]
 SelOf(pairs) == [p \in {pairs[j][1] : j \in 1..Len(pairs)} |-> LET j == CHOOSE j \in 1..Len(pairs) : pairs[j][1] = p IN pairs[j][2]]
 InOf(x) == [argv |-> x.argv, aopt |-> ToSet(x.aopt), csel |-> SelOf(x.csel), csec |-> ToSet(x.csec), env |-> x.env,
-            esel |-> SelOf(x.esel), eopt |-> ToSet(x.eopt), strict |-> x.strict]
+            esel |-> SelOf(x.esel), eopt |-> ToSet(x.eopt), strict |-> x.strict, dcf |-> x.dcf]
 ResOf(o) == [err |-> o.err, levels |-> [j \in 1..Len(o.levels) |-> Level(o.levels[j].x, o.levels[j].chosen, ToSet(o.levels[j].sections))]]
 VARIABLE tidx
 Init == tidx \in 1..Len(Cases)
@@ -19,7 +19,7 @@ Check == LET c == Cases[tidx]
              T == TreeOf(c.nodes)
              inp == InOf(c.input)
              seen == ResOf(c.obs)
-         IN /\ (seen = Select(T, inp)) \/ Say(tidx, IF CfgKeyNamesOther(inp) /\ seen = AlgSelect(T, inp) THEN "ref-dev-as-alg" ELSE "ref")
-            /\ (seen = AlgSelect(T, inp)) \/ Say(tidx, "alg")
+         IN /\ (seen = Select(T, inp)) \/ Say(tidx, IF DcfSubSettings(inp) THEN "ref-dcf" ELSE IF CfgKeyNamesOther(inp) /\ seen = AlgSelect(T, inp) THEN "ref-dev-as-alg" ELSE "ref")
+            /\ (seen = AlgSelect(T, inp)) \/ DcfSubSettings(inp) \/ Say(tidx, "alg")
 Inv == Check \/ TRUE
 =============================================================================
